@@ -1491,6 +1491,14 @@ class Evaluator:
                 self.silent -= 1
             if T.is_pure_const(nm) and isinstance(T.const_py(nm), str) and T.const_py(nm).isidentifier():
                 return ast.copy_location(ast.Attribute(value=n.args[0], attr=T.const_py(nm), ctx=ast.Load()), n)
+        if isinstance(n, ast.Call) and isinstance(n.func, ast.Name) and n.func.id == "getattr" and "getattr" not in st.locs and len(n.args) == 3 and not n.keywords \
+                and isinstance(n.args[0], ast.Name) and n.args[0].id == "self" and isinstance(n.args[1], ast.Constant) and isinstance(n.args[1].value, str) \
+                and n.args[1].value.isidentifier() and self.recv is not None:
+            # getattr(self, "<name>", default) where <name> always exists on the receiver (a property of its class, or an attribute
+            # the class's constructors have set on this path): the default is dead, the call is self.<name>
+            nm = n.args[1].value
+            if self.prog.find_property(self.recv, nm) is not None or nm in st.attrs:
+                return ast.copy_location(ast.Attribute(value=n.args[0], attr=nm, ctx=ast.Load()), n)
         return None
 
     def _first_match(self, e, st):
